@@ -327,3 +327,11 @@ func Select(hasDefault bool, cases ...Case) (int, any, bool) {
 	v, ok := s.doRecv(t, cs.c)
 	return i, v, ok
 }
+
+// NameOf returns the role name of ch ("" for the nil channel).
+func NameOf[T any](ch *Chan[T]) string {
+	if ch == nil {
+		return ""
+	}
+	return ch.c.name
+}
